@@ -20,6 +20,7 @@ import (
 
 type c20Case struct {
 	Workers   int    `json:"workers"`
+	WatermarkMs int `json:"watermark_ms,omitempty"` // nats: WithHighWatermark (a logging threshold); 0 = default
 	QueueLen  int    `json:"queue_len"`
 	Durations []int  `json:"durations_ms"` // one request per entry (the burst)
 	StopAfter int    `json:"stop_after"`   // Stop is called after this many requests were published and flushed
@@ -40,6 +41,7 @@ type c20Case struct {
 func genC20(t *rapid.T) c20Case {
 	c := c20Case{}
 	c.Workers = rapid.IntRange(1, 4).Draw(t, "workers")
+	c.WatermarkMs = rapid.SampledFrom([]int{0, 0, 1, 1, 20}).Draw(t, "watermark")
 	c.QueueLen = rapid.IntRange(0, 8).Draw(t, "queue")
 	n := rapid.IntRange(0, 30).Draw(t, "burst")
 	for i := 0; i < n; i++ {
@@ -170,8 +172,12 @@ func execC20Inner(c c20Case) *ev.Failure {
 	for k := 1; k < c.Subjects; k++ {
 		subjects = append(subjects, fmt.Sprintf("%s.s%d", subj, k))
 	}
-	srv := frugal.NewFNatsServerBuilder(sconn, newSvcProcessor(h), pf, subjects).
-		WithWorkerCount(uint(c.Workers)).WithQueueLength(uint(c.QueueLen)).Build()
+	sb := frugal.NewFNatsServerBuilder(sconn, newSvcProcessor(h), pf, subjects).
+		WithWorkerCount(uint(c.Workers)).WithQueueLength(uint(c.QueueLen))
+	if c.WatermarkMs > 0 {
+		sb = sb.WithHighWatermark(time.Duration(c.WatermarkMs) * time.Millisecond)
+	}
+	srv := sb.Build()
 	served := make(chan error, 1)
 	go func() { served <- srv.Serve() }()
 	for i := 0; i < 2000 && sconn.NumSubscriptions() < len(subjects); i++ {
